@@ -352,7 +352,17 @@ func cmdCheck(args []string) int {
 		fmt.Println("UNSUPPORTED:", n)
 	}
 	if *update {
+		// types of the locals named by the contracts (rename tolerance, rename.go)
+		lt := loadLocalTypes()
+		for _, j := range jobs {
+			for _, r := range j.res {
+				if len(r.LocalTypes) > 0 {
+					lt[r.Key] = r.LocalTypes
+				}
+			}
+		}
 		os.MkdirAll("/verif/baseline", 0o755)
+		writeJSON(localsFile, lt)
 		writeJSON(filepath.Join("/verif/baseline", cfg.ID+".json"), Baseline{Property: cfg.ID, Obligations: newBase})
 	}
 	// evidence
